@@ -31,7 +31,16 @@ type Ptr struct {
 	cell *Cell
 	path []int
 	sym  *Term // for symbolic element index into a SymArr cell (last step)
+	// mayNil: a pointer of unknown nil-ness into an object region (a link of a
+	// recursive structure): it is nil exactly when its identity sym is 0
+	mayNil bool
+	elem   types.Type // static element type of a nil pointer, when known
 }
+
+// Fwd is the content of a cell whose object has moved into its type's symbolic
+// region (it was stored into a symbolic array of pointers): every access
+// through the old address goes to the region object.
+type Fwd struct{ to *Ptr }
 
 // SliceV is a slice header. cell==nil is the nil slice.
 type SliceV struct {
@@ -47,6 +56,8 @@ type SliceV struct {
 type SymArr struct {
 	elem   types.Type
 	name   string
+	pre    []*Term    // leading select arguments (the identity of the object owning this array)
+	ro     bool       // backing array of a slice held by an object of a symbolic region: reads only
 	writes []symWrite // newest last
 	// leaves are read through mkApp("sel:<name>.<leaf>", idx) when no write hits
 }
@@ -145,6 +156,8 @@ type State struct {
 	log     []Event
 	version int // bumped on any externally visible effect
 	wlog    []int // ids of cells written (stores), in order
+	unfolded map[int]bool // recursive spec applications already unfolded in this state (copy on write)
+	nalloc  int           // number of objects moved into symbolic regions on this path
 	logMark int   // index into log of the most recent loop cut (events before it belong to earlier iterations)
 	gen     map[int]*Term // generalised compound terms (term id -> fresh variable), applied to every later VC
 	focus   []*Term       // when non-nil: later VCs use only these facts (plus what is assumed afterwards)
@@ -170,6 +183,8 @@ func (s *State) fork() *State {
 		schemas: s.schemas[:len(s.schemas):len(s.schemas)],
 		version: s.version,
 		logMark: s.logMark,
+		unfolded: s.unfolded,
+		nalloc:  s.nalloc,
 	}
 	for k, v := range s.store {
 		n.store[k] = v
@@ -299,7 +314,7 @@ func zeroValue(t types.Type) Value {
 		}
 		return &Tuple{typ: t, el: el}
 	case *types.Pointer:
-		return &Ptr{}
+		return &Ptr{elem: u.Elem()}
 	case *types.Slice:
 		return &SliceV{off: mkInt(0), len: mkInt(0), cap: mkInt(0), elem: u.Elem()}
 	case *types.Interface:
@@ -427,8 +442,15 @@ func iteValue(c *Term, a, b Value) (Value, bool) {
 		if ok && x.cell == y.cell && pathEq(x.path, y.path) && x.sym == y.sym {
 			return x, true
 		}
+		// nil merged with an object of a symbolic region: nil is the object of identity 0
+		if ok && x.cell == nil && y.cell != nil && y.sym != nil && len(y.path) == 0 {
+			return &Ptr{cell: y.cell, sym: mkIte(c, mkInt(0), y.sym), mayNil: true}, true
+		}
+		if ok && y.cell == nil && x.cell != nil && x.sym != nil && len(x.path) == 0 {
+			return &Ptr{cell: x.cell, sym: mkIte(c, x.sym, mkInt(0)), mayNil: true}, true
+		}
 		if ok && x.cell != nil && x.cell == y.cell && pathEq(x.path, y.path) && x.sym != nil && y.sym != nil {
-			return &Ptr{cell: x.cell, path: x.path, sym: mkIte(c, x.sym, y.sym)}, true
+			return &Ptr{cell: x.cell, path: x.path, sym: mkIte(c, x.sym, y.sym), mayNil: x.mayNil || y.mayNil}, true
 		}
 		return nil, false
 	case *Iface:
